@@ -4,16 +4,18 @@ Rewrite — model of `rewrite_paths` (src/path_rewriting.rs 232-406) with its he
 `is_covered` (src/filter.rs 3-21) and of the canonicalisation step of `add_results`
 (src/lib.rs 109-119).
 
-The file system is a parameter: a finite tree without symlinks (`FS`: canonical component lists
-of the regular files and of the directories, plus the canonical current directory), observed
-through `stat` / `realpath`, which walk the *raw* '/'-separated segments the way the kernel does
-(a regular file followed by anything, even a lone '/', is ENOTDIR; `..` is the physical parent).
+The file system is a parameter: a finite tree (`FS`: canonical component lists of the regular
+files and of the directories, the symbolic links with their target texts, plus the canonical
+current directory), observed through `stat` / `lstat` / `realpath`, which walk the *raw*
+'/'-separated segments the way the kernel does (a regular file followed by anything, even a lone
+'/', is ENOTDIR; a link is replaced by its target, relative to the directory that contains it;
+`..` is the physical parent, after a link of the target; ELOOP after 40 links).
 
 Outside the model (the harness never generates it, and says so):
 * (the Java/Kotlin partial-path lookup `map_partial_path` is NOT in this file's `rewritePaths`; it
   is inside `rewritePathsJ` of GrcovModel/Rewrite/Partial.lean, which re-uses the helpers below);
 * exclusion markers (`FileFilter` is the default one: `create` returns no filter, C16 has them);
-* symlinks; mapping values that are not JSON strings; a key or mapped value whose first character
+* mapping values that are not JSON strings; a key or mapped value whose first character
   is a cased non-ASCII letter (`to_lowercase_first` is modelled on ASCII);
 * globs outside `Glob`'s subset (`compile` answers `none`).
 Core Lean only.
@@ -25,41 +27,94 @@ open Grcov Grcov.UPath Grcov.Glob
 
 /-! ### file system -/
 
+/-- `links`: the symbolic links of the tree, canonical component list of the link itself ↦ its
+target text (absolute or relative, as `readlink` returns it). A path is a regular file, a
+directory or a link, never two of them (`FS.kind` looks at `files`/`dirs` only and a link is
+looked up first). -/
 structure FS where
   files : List (List Bytes)
   dirs : List (List Bytes)
   cwd : List Bytes
+  links : List (List Bytes × Bytes) := []
 
 inductive Kind where
   | file
   | dir
 deriving DecidableEq, Repr
 
-/-- what exists at a canonical component list (the root always exists) -/
+/-- what exists at a canonical component list (the root always exists); links are not looked at -/
 def FS.kind (fs : FS) (p : List Bytes) : Option Kind :=
   if p = [] then some .dir
   else if fs.dirs.contains p then some .dir
   else if fs.files.contains p then some .file
   else none
 
-/-- kernel path walk over the raw segments, from directory/file `cur` -/
-def walk (fs : FS) : List Bytes → Kind → List Bytes → Option (List Bytes × Kind)
+/-- the target of the symbolic link at a canonical component list -/
+def FS.linkAt (fs : FS) (p : List Bytes) : Option Bytes := AList.get? fs.links p
+
+/-- `MAXSYMLINKS`: Linux gives up with ELOOP after 40 links in one path resolution -/
+def maxLinks : Nat := 40
+
+/-- link-free kernel path walk over the raw segments, from directory/file `cur` (the walk of the
+model before symlinks were put inside; `walk_noLinks`: the two agree on a tree without links) -/
+def walk0 (fs : FS) : List Bytes → Kind → List Bytes → Option (List Bytes × Kind)
   | cur, k, [] => some (cur, k)
   | cur, k, seg :: segs =>
     match k with
     | .file => none                                  -- ENOTDIR, even for "" and "."
     | .dir =>
-      if seg = [] || seg = [46] then walk fs cur .dir segs
-      else if seg = [46, 46] then walk fs cur.dropLast .dir segs
+      if seg = [] || seg = [46] then walk0 fs cur .dir segs
+      else if seg = [46, 46] then walk0 fs cur.dropLast .dir segs
       else match fs.kind (cur ++ [seg]) with
         | none => none                               -- ENOENT
-        | some k' => walk fs (cur ++ [seg]) k' segs
+        | some k' => walk0 fs (cur ++ [seg]) k' segs
 
-/-- `stat(2)` without symlinks: relative paths start at the cwd, "" is ENOENT -/
+/-- kernel path walk (`link_path_walk`) over the raw segments, from directory/file `cur`.
+A component that is a symbolic link is replaced by the segments of its target: an absolute target
+restarts at the root, a relative one continues in the directory that CONTAINS the link; ".." is
+the physical parent of wherever the walk is (after a link: of the target). `lf` is the number of
+links that may still be followed (ELOOP = `none` when it is used up). `followLast = false` is
+`lstat`: a link in the LAST position is not followed (the walk then stops at the link's directory
+and answers `none` here: callers use `FS.lresolve`).
+`n` is step fuel (structural recursion, so that closed examples reduce): every step consumes one
+unit; `walk_fuel_stable` shows it is never the reason for `none` when `n` is what `resolve` passes. -/
+def walk (fs : FS) : Nat → Nat → List Bytes → Kind → List Bytes → Option (List Bytes × Kind)
+  | _, _, cur, k, [] => some (cur, k)
+  | 0, _, _, _, _ :: _ => none
+  | n + 1, lf, cur, k, seg :: segs =>
+    match k with
+    | .file => none                                  -- ENOTDIR, even for "" and "."
+    | .dir =>
+      if seg = [] || seg = [46] then walk fs n lf cur .dir segs
+      else if seg = [46, 46] then walk fs n lf cur.dropLast .dir segs
+      else match fs.linkAt (cur ++ [seg]) with
+        | some t =>
+          if t = [] then none                        -- ENOENT (an empty target cannot be created)
+          else match lf with
+            | 0 => none                              -- ELOOP
+            | lf' + 1 => walk fs n lf' (if hasRoot t then [] else cur) .dir (split t ++ segs)
+        | none =>
+          match fs.kind (cur ++ [seg]) with
+          | none => none                             -- ENOENT
+          | some k' => walk fs n lf (cur ++ [seg]) k' segs
+
+/-- the longest link target, in segments -/
+def FS.maxTarget (fs : FS) : Nat := (fs.links.map fun l => (split l.2).length).foldl max 0
+
+/-- step fuel that is always enough: the segments of the path plus those of 40 link targets -/
+def FS.fuel (fs : FS) (segs : List Bytes) : Nat := segs.length + maxLinks * fs.maxTarget + 1
+
+/-- `stat(2)`: relative paths start at the cwd, "" is ENOENT, every link is followed -/
 def FS.resolve (fs : FS) (p : Bytes) : Option (List Bytes × Kind) :=
   if p = [] then none
-  else if hasRoot p then walk fs [] .dir (split p)
-  else walk fs fs.cwd .dir (split p)
+  else if hasRoot p then walk fs (fs.fuel (split p)) maxLinks [] .dir (split p)
+  else walk fs (fs.fuel (split p)) maxLinks fs.cwd .dir (split p)
+
+/-- the link-free `stat(2)` of the model before symlinks -/
+def FS.resolve0 (fs : FS) (p : Bytes) : Option (List Bytes × Kind) :=
+  if p = [] then none
+  else if hasRoot p then walk0 fs [] .dir (split p)
+  else walk0 fs fs.cwd .dir (split p)
 
 def FS.exists (fs : FS) (p : Bytes) : Bool := (fs.resolve p).isSome
 
@@ -71,6 +126,23 @@ def FS.isFile (fs : FS) (p : Bytes) : Bool :=
 /-- `fs::canonicalize` -/
 def FS.realpath (fs : FS) (p : Bytes) : Option Bytes :=
   (fs.resolve p).map fun r => render ⟨true, r.1⟩
+
+/-- `symlink_metadata(p).file_type().is_symlink()` (`lstat`): every component but the last is
+resolved with links followed, the last one is looked up as it is. Trailing "", "." and ".."
+segments make the last component a directory reference, never a link. -/
+def FS.isLink (fs : FS) (p : Bytes) : Bool :=
+  match (split p).reverse with
+  | [] => false
+  | last :: revInit =>
+    if last = [] || last = [46] || last = [46, 46] then false
+    else
+      let start := if hasRoot p then [] else fs.cwd
+      match walk fs (fs.fuel revInit.reverse) maxLinks start .dir revInit.reverse with
+      | some (d, .dir) => (fs.linkAt (d ++ [last])).isSome
+      | _ => false
+
+/-- a tree without symbolic links -/
+def FS.noLinks (fs : FS) : Prop := fs.links = []
 
 /-! ### configuration -/
 
